@@ -6,7 +6,7 @@ import RtenVerif.Model.Filter
 an empty item list is `-`; `<m>` is `d` (dense input) or `s` (sparse), ignored here):
 
 * `cmp <a> <b>`                         → `<lt|eq|gt> <0|1>`  (`total_cmp`, IEEE `a > b`)
-* `topk <m> <k> | <items>`              → items | `panic`
+* `topk <m> <k> | <items>`              → items | `panic`   (also `topk@<isa> …`: same answer)
 * `topk0 <m> <k> | <items>`             → same for the code before the clamp fix
 * `topp <m> <pbits> | <items>`          → items | `skip` (non-finite p or scores)
 * `sort <m> | <items>`                  → items
@@ -63,7 +63,9 @@ def handle (line : String) : String :=
       let o := if tkey x < tkey y then "lt" else if tkey x = tkey y then "eq" else "gt"
       s!"{o} {b01 (fgt x y)}"
     | _, _ => "bad-request"
-  | cmd :: _m :: rest =>
+  | cmd0 :: _m :: rest =>
+    -- `topk@avx2` etc.: the ISA the harness forced; the model's answer does not depend on it
+    let cmd := (cmd0.splitOn "@").headD cmd0
     let (hd, tl) := splitBar rest
     match parseItems tl with
     | none => "bad-request"
